@@ -68,19 +68,24 @@ ASSUMPTIONS = [
 # bypasses the exclusion (used by known-finding probes).
 KNOWN = {
     # Manly(lmbda<0).denormalize_range = (-inf, 1/lmbda) instead of (-inf, -1/lmbda)
-    "F2_manly_neg_range": True,
+    # (fixed in /repo by 40463bf: switch off, assertion live)
+    "F2_manly_neg_range": False,
     # normalize/denormalize/derivative of an out-of-range *scalar* raises TypeError
-    "N1_scalar_out_of_range": True,
+    # (fixed in /repo by 1106520: switch off, assertion live)
+    "N1_scalar_out_of_range": False,
     # YeoJohnson / Modulus declare no denormalize_range: values outside the image
     # give finite garbage / inf instead of NaN
-    "N2_yj_modulus_output_range": True,
+    # (fixed in /repo by e27e15a: switch off, assertion live)
+    "N2_yj_modulus_output_range": False,
     # YeoJohnson switches to the lmbda=2 formula for |lmbda-2| <= 1e-8+2e-5 (isclose rtol)
-    "N3_yj_switch_width": True,
+    # (fixed in /repo by 61370db: switch off, assertion live)
+    "N3_yj_switch_width": False,
     # apply_mean_norm_trend(value_type='vector') with the default check_shape=True raises
     "N4_tools_vector_check_shape": True,
     # format_struct_pos_shape: equal axis lengths with d*L == field size or
     # d*L == prod(shape[1:]) (2x2, 3x3x3) are misread as 1-D
-    "N5_struct_equal_axes": True,
+    # (fixed in /repo by c4c9483: switch off, assertion live)
+    "N5_struct_equal_axes": False,
     # BoxCoxShift.fit of both parameters may end where data are out of range or the
     # likelihood overflows (class doc: "Fitting the shift parameter is rather hard")
     "O1_boxcoxshift_two_parameter_fit": True,
